@@ -1,3 +1,5 @@
+//go:build all || c03
+
 package props
 
 import (
